@@ -830,4 +830,6 @@ def run(P, R, tier):
     # ... and is printed as a dotted quad exactly when it is an IPv4 address
     from . import c09
     c09.dotted_quad_guard(P, Remap(R, {'C09.GRD.2': 'C06.GRD.5'}))
+    # the "already sent" mask covers every slot
+    rules.narrowing_fields(P, R, 'C06.WID.1', ('modules/iauth_core.c', 'modules/iauth_xquery.c', 'modules/iauth_class.c'))
     return EXPLANATION, ASSUMPTIONS
